@@ -15,6 +15,7 @@ import (
 	"strconv"
 	"strings"
 	"sync"
+	"sync/atomic"
 	"syscall"
 	"time"
 
@@ -41,6 +42,8 @@ var origin = time.Unix(1_700_000_000, 0)
 
 // construction reads the clock from the global context manager: serialise it.
 var ctorMu sync.Mutex
+
+var stuckCases atomic.Int32
 
 func policies(label int64, enabled bool) *config.PoliciesData {
 	var c sharedConfig.PoliciesConfig
@@ -86,8 +89,10 @@ func (w *world) nowNs() int64 { return int64(w.mc.Now().Sub(origin)) }
 
 // quiesce waits until every started vacuum goroutine is parked on a timer.
 func (w *world) quiesce() {
-	limit := 3 * time.Second
-	if w.stuck {
+	// a goroutine that never parks only happens on a broken tree: the answers are then flagged
+	// (`vacuum-goroutine-not-parked`) and, after a few such cases, the wait is cut short.
+	limit := 2 * time.Second
+	if w.stuck || stuckCases.Load() >= 3 {
 		limit = 20 * time.Millisecond
 	}
 	start := time.Now()
@@ -96,6 +101,9 @@ func (w *world) quiesce() {
 			return
 		}
 		if time.Since(start) > limit {
+			if !w.stuck {
+				stuckCases.Add(1)
+			}
 			w.stuck = true
 			return
 		}
